@@ -25,6 +25,16 @@ def search(big=False):
             t.cook()
             if all(isinstance(b, str) for b in t._v_blocks) and out != src:
                 return n, dict(source=src, cls=cls.__name__, output=out, what='a source without tags does not render to itself')
+    # 1b. what is a tag depends on the template class: text that is a tag in the other syntax is plain text here, also
+    #     when a template of the other class with the very same source was compiled before (and the other way round)
+    for src_h, src_s in (('Dear <dtml-var v>,\n', 'Dear %(v)s,\n'), ('<dtml-if t>y</dtml-if>', '%(if t)[y%(if)]')):
+        for first, second, src, want_second in ((HTML, String, src_h, src_h), (String, HTML, src_s, src_s)):
+            n += 1
+            first(src)(v='V', t=1)
+            out = second(src)(v='V', t=1)
+            if out != want_second:
+                return n, dict(source=src, cls=second.__name__, compiled_before_as=first.__name__, output=out,
+                               what='text without tags (for this template class) does not render to itself')
     # 2. literal text around and inside tags: verbatim, in order; only one blank run + newline after block tags is dropped
     lits = ['a<b', ' x ', 'l1\nl2', '&amp;', '%d', '"q"', '  \n', 'é']
     for a, b, c in itertools.product(lits, repeat=3):
